@@ -87,6 +87,10 @@ class Ctx:
         self.taint: str | None = None
         self._fresh = 0
         self._solver = None
+        # background axioms of uninterpreted symbols used on this path (name -> closed formula); handed to the solver
+        # with every obligation of the path, not used for branch pruning
+        self.axioms: dict[str, object] = {}
+        self.bkey_lemmas: dict[str, object] = {}  # consequences of the "bkey" axiom, used only together with it
 
     # -- fresh names deterministic per path position
     def fresh_name(self, base):
@@ -151,5 +155,5 @@ class Ctx:
         if key in self.ex.obligations:
             return
         self.ex.obligations[key] = Obligation(
-            name, kind, list(self.pc), goal, site=site, tainted=self.taint, path=self.decisions, note=note, model_vars=model_vars
+            name, kind, list(self.pc) + list(self.axioms.values()) + (list(self.bkey_lemmas.values()) if "bkey" in self.axioms else []), goal, site=site, tainted=self.taint, path=self.decisions, note=note, model_vars=model_vars
         )
